@@ -1151,10 +1151,10 @@ def finalize_reset(ctx):
 
 # --------------------------------------------------------------------------- SCAN-TO-ZERO
 
-def _ok_returning(f, start):
+def _ok_returning(f, start, stop=None):
     """True if a return block reached from `start` can carry an Ok value: some block on the way assigns
     _0 := Result::Ok{..} (or returns a callee's result unchanged)."""
-    region = f.reach_from([start])
+    region = f.reach_from([start], stop=stop)
     for b in region:
         for s in f.blocks[b]['stmts']:
             if s['k'] == 'assign' and s['lhs']['l'] == 0 and not s['lhs']['p'] and s['rv']['r'] == 'agg' and \
@@ -1216,14 +1216,25 @@ def scan_to_zero(ctx):
             n += 1
             key = '%s:scan-of-%s' % (f.key, f.local_name(v))
             bad = []
+            restart_dirty = []
             for u in sorted(body):
                 for w in f.succs(u):
                     if w in body or f.blocks[w]['cleanup']:
                         continue
                     if u == h and w in exit_edge:
                         continue
-                    if _ok_returning(f, w):
+                    if _ok_returning(f, w, stop={h}):
                         bad.append((u, w))
+                    elif h in f.reach_from([w]):
+                        # the exit restarts the scan (it can only succeed through the header's zero exit again): what the
+                        # abandoned round collected must be thrown away on the way back
+                        clears = {cb for cb, ct, cc in f.calls() if cc.name == 'clear'}
+                        if h in f.reach_from([w], stop=clears):
+                            restart_dirty.append((u, w))
+            if restart_dirty and not bad:
+                ctx.violation(key, f.loc(restart_dirty[0][0]), 'the scan is restarted from %s without clearing what the abandoned round collected: units '
+                              'from a chain that did not reach position zero stay in the result' % f.loc(restart_dirty[0][0]))
+                continue
             if bad:
                 ctx.violation(key, f.loc(bad[0][0]), 'the scan leaves its loop at %s while `%s` may still be above zero and the function can '
                               'then return Ok: the bytes in front of that position are never examined (a damaged or foreign prefix, '
@@ -1630,7 +1641,7 @@ def magic_prefix(ctx):
 
 # --------------------------------------------------------------------------- TRAILING-SKIP
 
-@rule('TRAILING-SKIP', ['C08', 'C12'], floor=1)
+@rule('TRAILING-SKIP', ['C08', 'C12'], floor=2)
 def trailing_skip(ctx):
     """The LZIP format allows data after the last member and the single-threaded reader ignores it (NoMagic after a
     complete member ends decoding with Ok). The multi-threaded reader finds its members by walking back from the end
@@ -1705,6 +1716,39 @@ def trailing_skip(ctx):
     else:
         ctx.violation(key, f.loc(mh), 'the backward member scan starts at the raw end of the file and its first magic/trailer mismatch is an error: '
                       'a file with trailing bytes after the last member (valid LZIP, accepted by LZIPReader) makes LZIPReaderMT::new fail')
+    # clause 2: trailing data may itself contain a member or something member-like. A chain of members that breaks before it
+    # reaches position 0 started inside trailing data: the validation failures of the member loop must lead back into the
+    # search, not to an error.
+    key2 = '%s:broken-chain-restarts-the-search' % f.key
+    if not member_loops:
+        ctx.violation(key2, f.loc(mh), 'cannot find the member loop (anchor lost, fail closed)')
+        return
+    body = f.loops()[mh]
+    pf = Prov(f)
+    fatal = []
+    nval = 0
+    for b in sorted(body):
+        t = f.blocks[b]['term']
+        if t['k'] != 'switch' or b == mh:
+            continue
+        outs = [w for w in f.succs(b) if w not in body and not f.blocks[w]['cleanup']]
+        if not outs:
+            continue
+        e = pf.operand(t['discr'], 0, '%d:T' % b)
+        if any(x[0] == 'trybranch' or (x[0] == 'call' and last_seg(x[1]) in ('branch',)) for x in expr_walk(e)):
+            continue   # `?` on an I/O call: a failing source is an error
+        nval += 1
+        for w in outs:
+            if mh not in f.reach_from([w]):
+                fatal.append((b, w))
+    if not nval:
+        ctx.violation(key2, f.loc(mh), 'the member loop has no validation exit (trailer size, magic): anchor lost (fail closed)')
+    elif fatal:
+        ctx.violation(key2, f.loc(fatal[0][0]), 'a member chain that fails validation at %s ends LZIPReaderMT::new with an error; when the chain began inside '
+                      'trailing data (e.g. A B xx C: the single-threaded reader returns A and B) the real last member ends further down and the '
+                      'search has to go on there' % f.loc(fatal[0][0]))
+    else:
+        ctx.ok(key2, f.loc(mh), '%d validation exit(s) of the member loop lead back into the search' % nval)
 
 
 
